@@ -359,6 +359,12 @@ pub fn gen(prop: &str, rng: &mut Rng, quick: bool, st: &mut Stats) -> Option<Vec
                 c.push(format!("chk_startpos {} {p:x} - {}", if k % 2 == 0 { "sync" } else { "async" }, ops.join(";")));
                 st.bump("start_position_near_limits");
             }
+            // archives with leaf directories at starting positions beyond 16 KiB
+            for (k, p) in [16_384u64, 70_000].iter().enumerate() {
+                let mode = if k % 2 == 0 { "sync" } else { "async" };
+                c.push(format!("chk_startpos {mode} {p:x} - {}", spill_ops(rng, 4300 + 700 * k, Compression::None)));
+                st.bump("start_position_spill_beyond_16k");
+            }
         }
         "C17" => {
             let mut k = 0;
